@@ -24,8 +24,10 @@ VXmlEquiv(ev) == IF ~Terminated(ev) THEN "bad:crash"
 (* C03: abilint reproduces the document byte for byte; abilint --diff exits 0 *)
 VFixpoint(ev) == IF ~Terminated(ev) THEN "bad:crash"
                  ELSE IF ev.lintexit # 0 THEN "bad:abilint-failed"
-                 ELSE IF ev.h1 # ev.h2 THEN "bad:not-a-fixpoint"
-                 ELSE IF ev.diffexit # 0 THEN "bad:abilint--diff" ELSE "ok"
+                 ELSE IF ev.h1 # ev.h2 \/ ev.diffexit # 0
+                      THEN (IF KF_C03_void(ev) THEN "kf:C03-void-type-position"
+                            ELSE IF ev.h1 # ev.h2 THEN "bad:not-a-fixpoint" ELSE "bad:abilint--diff")
+                 ELSE "ok"
 
 (* C04: well-formed, every referenced type id defined exactly once, every referenced symbol id listed *)
 VWellFormed(ev) == IF ~Terminated(ev) THEN "bad:crash"
